@@ -74,6 +74,19 @@ let op_rt_step a =
           (canon zones i.s_lz sent) (canon zones i.s_lz skipped) (if r.rt_persist then 1 else 0) ozout);
   emit (Printf.sprintf "rtd sent=%s skip=%s persist=%d" (names sent) (names skipped) (if r.rt_persist then 1 else 0))
 
+
+(* Zone::OnAllConfigLoaded in a given activation order *)
+let rtl_line cfg order =
+  match rt_load cfg (List.map nat_of_int order) with
+  | None -> "rtl error"
+  | Some res ->
+    "rtl" ^ String.concat "" (List.map (fun (z, (p, all)) ->
+      Printf.sprintf " z%d=%s:%s" (int_of_nat z)
+        (match p with None -> "-" | Some q -> string_of_int (int_of_nat q))
+        (match all with [] -> "-" | l -> String.concat "." (List.map (fun x -> string_of_int (int_of_nat x)) l))) res)
+
+let op_rt_reload a = emit (rtl_line !rt_cfg_ref (id_list (str a "order" "-")))
+
 (* oracle: the Gallina check [rt_oracle] over every observed step of the IMPLEMENTATION trace *)
 let oracle_c11_case script trace =
   let zones = ref [] and cfg = ref [] in
@@ -83,6 +96,20 @@ let oracle_c11_case script trace =
   List.iteri (fun li line ->
     match parse_line line with
     | Some ("rt_topo", a) -> zones := rt_parse_topo a; cfg := rt_cfg_of !zones
+    | Some ("rt_reload", a) ->
+      (match !tr with
+       | l :: rest ->
+         tr := rest;
+         if is_bad_line l then fail (Printf.sprintf "step=%d crash %s" li l) else begin
+         (* every zone must end up with its parent and the full ancestor chain rt_all_parents, whatever the order *)
+         let order = id_list (str a "order" "-") in
+         let want = "rtl" ^ String.concat "" (List.map (fun z ->
+           let zn = nat_of_int z in
+           let p = (match List.nth_opt !cfg z with Some zr -> zr.rt_zparent | None -> None) in
+           Printf.sprintf " z%d=%s:%s" z (match p with None -> "-" | Some q -> string_of_int (int_of_nat q))
+             (match rt_all_parents !cfg zn with [] -> "-" | l -> String.concat "." (List.map (fun x -> string_of_int (int_of_nat x)) l))) order) in
+         if l <> want then fail (Printf.sprintf "step=%d ancestor-chain got=[%s] want=[%s]" li l want) end
+       | [] -> fail (Printf.sprintf "step=%d missing-observation" li))
     | Some ("rt_step", a) ->
       (match !tr with
        | l1 :: l2 :: rest when not (is_bad_line l1) && not (is_bad_line l2) ->
@@ -118,4 +145,5 @@ let oracle_c11_case script trace =
 let () =
   register_op "rt_topo" op_rt_topo;
   register_op "rt_step" op_rt_step;
+  register_op "rt_reload" op_rt_reload;
   register_oracle "C11" oracle_c11_case
